@@ -535,6 +535,15 @@ class TwinGen(object):
                     for q in row:
                         q.var = None
                 st2.A = None
+                if r.random() < 0.6:
+                    # ... and whose first reflection is a parameter this
+                    # vnacal_new_t has not seen before, to be solved for: if
+                    # the refused standard leaves it behind, later solves
+                    # carry an unknown that no equation mentions
+                    q = st2.sp[0][0]
+                    g = calgen.Param("scalar", np.full(
+                        F, complex(np.mean(q.values)) + 0.01, dtype=complex))
+                    st2.sp[0][0] = calgen.Param.unknown(q.values, g)
                 idx = 7000 + n
                 ln = sc.emit_std(s, st2, idx, vn=vn, uid=[800000 + n * 100])
                 for i in range(ln - 1, -1, -1):
@@ -599,9 +608,29 @@ class TwinGen(object):
         elif k == 1:
             self.cand.add(s.op("vnacal_new_set_frequency_vector $%s NULL" % vn))
         elif k == 2:
-            s.rvec("rs%d" % n, [1e-3] * max(F, 1))
-            self.cand.add(s.op("vnacal_new_set_m_error $%s @freq %d @rs%d NULL"
-                               % (vn, int(r.choice([0, -1])), n)))
+            v = int(r.integers(0, 5))
+            f0, f1 = float(sc.freqs[0]), float(sc.freqs[-1])
+            if v == 0:
+                s.rvec("rs%d" % n, [1e-3] * max(F, 1))
+                self.cand.add(s.op(
+                    "vnacal_new_set_m_error $%s @freq %d @rs%d NULL"
+                    % (vn, int(r.choice([0, -1])), n)))
+            else:
+                # a noise description on its own grid that is refused late:
+                # the end points cover the band, an interior point is out of
+                # order / given twice, or the grid misses the band
+                lo, hi = 0.9 * f0, 1.1 * f1
+                a_, b_ = lo + 0.3 * (hi - lo), lo + 0.6 * (hi - lo)
+                grid = {1: [lo, b_, a_, hi], 2: [lo, a_, a_, hi],
+                        3: [1.3 * f1, 1.5 * f1, 1.7 * f1, 2.0 * f1],
+                        # ascending, but closer than any sweep can resolve
+                        4: [lo, a_, a_ + 3e-5, hi]}[v]
+                s.rvec("rmf%d" % n, grid)
+                s.rvec("rs%d" % n, [1e-3, 2e-3, 1e-3, 3e-3])
+                self.cand.add(s.op(
+                    "vnacal_new_set_m_error $%s @rmf%d 4 @rs%d %s" % (
+                        vn, n, n, "@rs%d" % n if r.random() < 0.5
+                        else "NULL")))
         elif k == 3:
             self.cand.add(s.op("vnacal_new_set_pvalue_limit $%s %s" % (
                 vn, hx(float(r.choice([-1.0, 2.0, -1e-9]))))))
